@@ -98,7 +98,7 @@ spec('TCPCubic', '__init__')('''
 def __init__(self, mss=512, cwnd=512, ssthresh=65535, debug=False):
     super().__init__()
     self.W_last_max = 0
-    self.epoch_start = 0
+    self.epoch_start = None
     self.origin_point = 0
     self.d_min = 0
     self.W_tcp = 0
@@ -115,7 +115,7 @@ def __init__(self, mss=512, cwnd=512, ssthresh=65535, debug=False):
 spec('TCPCubic', 'cubic_reset')('''
 def cubic_reset(self):
     self.W_last_max = 0
-    self.epoch_start = 0
+    self.epoch_start = None
     self.origin_point = 0
     self.d_min = 0
     self.W_tcp = 0
@@ -129,10 +129,10 @@ def timer_expired(self):
     self.cubic_reset()
 ''')
 
-spec('TCPCubic', 'cubic_update')('''
+spec('TCPCubic', 'cubic_update', what='a new epoch starts iff none is running (a marker, not a comparison of the start time with 0: the clock may start below 0 or an ACK arrive at exactly 0); K, origin, W_tcp set at its start; cnt from the cubic target')('''
 def cubic_update(self, current_time):
     self.ack_cnt += 1
-    if self.epoch_start <= 0:
+    if self.epoch_start is None:
         self.epoch_start = current_time
         if self.cwnd < self.W_last_max:
             self.K = ((self.W_last_max - self.cwnd) / self.C) ** (1.0 / 3)
